@@ -19,7 +19,7 @@ if [ -z "$TESTARGS" ]; then TESTARGS="--lib seed_demo"; fi
 echo "== demo on unchanged tree"
 cargo test --offline $TESTARGS > out_base.txt 2>&1; RB=$?
 tail -5 out_base.txt
-git apply $SD/patch.diff || { echo "RESULT $NAME patch-does-not-apply"; cd /; git -C /repo worktree remove --force $WT; exit 1; }
+git apply $SD/patch.diff 2>/dev/null || patch -p1 -F3 -s --no-backup-if-mismatch < $SD/patch.diff || { echo "RESULT $NAME patch-does-not-apply"; cd /; git -C /repo worktree remove --force $WT; exit 1; }
 echo "== demo with change"
 cargo test --offline $TESTARGS > out_mut.txt 2>&1; RM=$?
 tail -5 out_mut.txt
